@@ -590,6 +590,12 @@ func (a *auth) powerLevelRules(ev *Ev) (bool, string) {
 			}
 		}
 	}
+	// the entry of another user at or above the sender's level may not be removed, whatever users_default becomes
+	for u, l := range old.Users {
+		if _, kept := np.Users[u]; !kept && u != ev.Sender && sl <= l {
+			return false, "4:pl-user-entry-of-peer-removed"
+		}
+	}
 	useen := map[string]bool{}
 	for _, m := range []map[string]int64{np.Users, old.Users} {
 		for u := range m {
